@@ -241,6 +241,34 @@ public:
         --depth;
     }
 
+    // a scalar appended to a case format later on: absent -> keeps its default
+    template <class T>
+    void optionalNum(const char* name, T& v)
+    {
+        if (!writing && peekName() != name)
+            return;
+        num(name, v);
+    }
+
+    std::string peekName()
+    {
+        std::streampos pos = in.tellg();
+        std::string line, first;
+        while (std::getline(in, line))
+        {
+            size_t p = line.find_first_not_of(" \t\r");
+            if (p != std::string::npos && line[p] != '#')
+            {
+                std::istringstream ls(line);
+                ls >> first;
+                break;
+            }
+        }
+        in.clear();
+        in.seekg(pos);
+        return first;
+    }
+
     // a vector appended to a case format later on: if the next field is not `name` (or the input ends) the vector is
     // empty, so older replay files still parse
     template <class T>
